@@ -273,7 +273,9 @@ def units():
     bnd('bnd.fs.merge.u8', 'bs_flatset_merge', [FS8 + '__merge__r' + FS8], ['C03', 'C02', 'C06'],
         {'BFS_T': 'struct ' + FS8, 'BVEC_T': 'struct StdVectorBase_E_A_u8', 'BFS_MERGE(a, b)': '%s__merge__r%s(a, b)' % (FS8, FS8)})
     bnd('bnd.fs.merge_other.u32', 'bs_flatset_merge_other', [FS32 + '__merge__r' + FS32o], ['C03', 'C02'], vimpl='VectorImpl_E_A_u32_f_Dyn', extra_defs=
-        {'BFS_T': 'struct ' + FS32, 'BFS_OTHER_T': 'struct ' + FS32o, 'BVEC_T': 'struct StdVectorBase_E_A_u32', 'BFS_MERGE_OTHER(a, b)': '%s__merge__r%s(a, b)' % (FS32, FS32o)})
+        {'BFS_T': 'struct ' + FS32, 'BFS_OTHER_T': 'struct ' + FS32o, 'BVEC_T': 'struct StdVectorBase_E_A_u32', 'BFS_MERGE_OTHER(a, b)': '%s__merge__r%s(a, b)' % (FS32, FS32o),
+         'UNIQUE_PRED_T': 'struct %s__ValueEqui' % FS32, 'UNIQUE_PRED_CALL(fp, a, b)': '%s__ValueEqui__op_call__rE_rE_c(fp, a, b)' % FS32})
+    us[-1]['extra_reach'].append(FS32 + '__ValueEqui__op_call__rE_rE_c')
     UQ = {'UNIQUE_PRED_T': 'struct %s__ValueEqui' % FS8, 'UNIQUE_PRED_CALL(fp, a, b)': '%s__ValueEqui__op_call__rE_rE_c(fp, a, b)' % FS8}
     bnd('bnd.fs.insert_range.u8', 'bs_flatset_insert_range', [FS8 + '__insert__pE_pE', FS8 + '__ValueEqui__op_call__rE_rE_c'], ['C03', 'C02', 'C20'],
         dict(UQ, **{'BFS_T': 'struct ' + FS8, 'BVEC_T': 'struct StdVectorBase_E_A_u8', 'BFS_INSERT_RANGE(s, f, l)': '%s__insert__pE_pE(s, f, l)' % FS8}))
